@@ -146,13 +146,22 @@ class Explorer(object):
                 if di < 0:
                     raise Undecided('missing argument {} for {}'.format(p, fd.name), fd)
                 env[p] = self.expr(defaults[di], {})
+        is_gen = any(isinstance(x, (ast.Yield, ast.YieldFrom)) for st_ in fd.body for x in ast.walk(st_) if not isinstance(st_, (ast.FunctionDef, ast.ClassDef)))
+        if is_gen:
+            # a generator is run to its end and stands for the list of what it yields (the models consume generators completely and
+            # the producers they meet have no effects of their own)
+            if not hasattr(self, '_yields'):
+                self._yields = []
+            self._yields.append([])
         try:
             self.block(fd.body, env)
-            return None
+            return self._yields[-1] if is_gen else None
         except _Return as r:
-            return r.value
+            return self._yields[-1] if is_gen else r.value
         finally:
             self.depth -= 1
+            if is_gen:
+                self._yields.pop()
 
     def tick(self, node):
         self.steps += 1
@@ -323,8 +332,14 @@ class Explorer(object):
             c = self.port.module_consts(self.modname).get(e.id, NOT_HANDLED) if hasattr(self.port, 'module_consts') else NOT_HANDLED
             if c is not NOT_HANDLED:
                 return c
-            if e.id in ('len', 'iter', 'str', 'int', 'bool', 'list', 'tuple', 'isinstance', 'range', 'enumerate', 'min', 'max', 'any', 'all', 'type', 'set', 'Set', 'sorted', 'sum'):
+            if e.id in ('len', 'iter', 'str', 'int', 'bool', 'list', 'tuple', 'isinstance', 'range', 'enumerate', 'min', 'max', 'any', 'all', 'type', 'set', 'Set', 'sorted', 'sum', 'Map', 'dict'):
                 return ('builtin', e.id)
+            # a module-level table of constants (`WILDCARDS = new Map([['_', '.'], ...])`, a dict / list / tuple literal), bound once
+            mod_ = getattr(self.port, 'modules', {}).get(self.modname)
+            if mod_ is not None:
+                defs_ = [st for st in mod_.body if isinstance(st, ast.Assign) and len(st.targets) == 1 and isinstance(st.targets[0], ast.Name) and st.targets[0].id == e.id]
+                if len(defs_) == 1 and not any(isinstance(x, (ast.Name,)) and x.id not in ('Map', 'Set', 'dict', 'set', 'list', 'tuple') for x in ast.walk(defs_[0].value)):
+                    return self.expr(defs_[0].value, {})
             raise Undecided('name {} unknown in abstract exploration'.format(e.id), e)
         if isinstance(e, (ast.List, ast.Tuple)):
             vals = [self.expr(x, env) for x in e.elts]
@@ -396,6 +411,9 @@ class Explorer(object):
             if all(isinstance(x, str) for x in parts):
                 return ''.join(parts)
             return Abs('Text', parts=tuple(parts))
+        if isinstance(e, ast.Yield) and getattr(self, '_yields', None):
+            self._yields[-1].append(self.expr(e.value, env) if e.value is not None else None)
+            return None
         if isinstance(e, ast.Lambda):
             return ('lambda', e, env)
         if isinstance(e, (ast.ListComp, ast.GeneratorExp)) and len(e.generators) == 1:
@@ -472,6 +490,9 @@ class Explorer(object):
                         ast.BitAnd: lambda: a & b, ast.BitOr: lambda: a | b, ast.BitXor: lambda: a ^ b}[type(op)]()
             except (KeyError, ZeroDivisionError, TypeError):
                 raise Undecided('arithmetic outside the abstract interpreter', node)
+        if isinstance(op, ast.Add) and (getattr(a, 'is_abs_str', False) or getattr(b, 'is_abs_str', False)) and isinstance(a, (str, list, Abs)) and isinstance(b, (str, list, Abs)):
+            # an abstract string (list of abstract characters) concatenated with text: a text made of both
+            return Abs('Text', parts=_parts(a) + _parts(b))
         if isinstance(op, ast.Add) and isinstance(a, list) and isinstance(b, list):
             return a + b
         if isinstance(op, ast.Add) and isinstance(a, tuple) and isinstance(b, tuple):
@@ -574,6 +595,13 @@ class Explorer(object):
             return isinstance(args[0], Abs) and args[0].props.get('cls') == args[1][1]
         if name in ('set', 'Set') and not args:
             return set()
+        if name in ('Map', 'dict') and len(args) <= 1:
+            if not args:
+                return {}
+            if isinstance(args[0], (list, tuple)) and all(isinstance(p_, (list, tuple)) and len(p_) == 2 for p_ in args[0]):
+                return {p_[0]: p_[1] for p_ in args[0]}
+            if isinstance(args[0], dict):
+                return dict(args[0])
         if name in ('any', 'all') and len(args) == 1 and isinstance(args[0], (list, tuple)):
             ts = [self.truth(x, node) for x in args[0]]
             return any(ts) if name == 'any' else all(ts)
@@ -596,6 +624,9 @@ class Explorer(object):
             if m in ('append', 'push') and len(args) == 1:
                 recv.append(args[0])
                 return None
+            if m == 'push' and len(args) > 1:
+                recv.extend(args)
+                return len(recv)
             if m == 'extend' and len(args) == 1 and isinstance(args[0], (list, tuple)):
                 recv.extend(args[0])
                 return None
@@ -646,6 +677,8 @@ class Explorer(object):
                 return getattr(recv, m.lower())(args[0])
             if m == 'count' and len(args) == 1 and isinstance(args[0], str):
                 return recv.count(args[0])
+            if m == 'repeat' and len(args) == 1 and isinstance(args[0], int) and 0 <= args[0] < 100:
+                return recv * args[0]
             if m == 'charAt' and len(args) == 1 and isinstance(args[0], int):
                 return recv[args[0]] if 0 <= args[0] < len(recv) else ''
             if m == 'at' and len(args) == 1 and isinstance(args[0], int):
